@@ -280,6 +280,8 @@ pub struct Stats {
     pub violations: Vec<FoundViolation>,
     pub capped: Option<String>,
     pub samples: Vec<Vec<u16>>,
+    /// debugging: first choice sequence (and step index) that reached each state
+    pub witness_of_state: std::collections::HashMap<u64, (Vec<u16>, usize)>,
 }
 
 impl Stats {
@@ -302,6 +304,9 @@ impl Stats {
             if self.samples.len() < 3 {
                 self.samples.push(s);
             }
+        }
+        for (k, v) in o.witness_of_state {
+            self.witness_of_state.entry(k).or_insert(v);
         }
     }
     fn add_violation(&mut self, v: FoundViolation) {
@@ -326,6 +331,11 @@ pub struct Limits {
     pub threads: usize,
     /// stop the whole search at the first violation kind count (0 = never stop early)
     pub stop_after_violation_kinds: usize,
+}
+
+fn dump_states() -> bool {
+    static D: std::sync::OnceLock<bool> = std::sync::OnceLock::new();
+    *D.get_or_init(|| std::env::var_os("VERIF_DUMP_STATES").is_some())
 }
 
 fn strip_trailing_zeros(mut v: Vec<u16>) -> Vec<u16> {
@@ -404,6 +414,11 @@ where
                 st.horizons += 1;
             }
             let full: Vec<u16> = trace.iter().map(|c| c.chosen).collect();
+            if dump_states() {
+                for (ix, f) in out.fingerprints.iter().enumerate() {
+                    st.witness_of_state.entry(*f).or_insert_with(|| (full.clone(), ix));
+                }
+            }
             if st.samples.len() < 3 && (st.executions == 1 || st.executions % 997 == 0) {
                 st.samples.push(strip_trailing_zeros(full.clone()));
             }
@@ -555,6 +570,11 @@ where
                 st.horizons += 1;
             }
             let full: Vec<u16> = trace.iter().map(|c| c.chosen).collect();
+            if dump_states() {
+                for (ix, f) in out.fingerprints.iter().enumerate() {
+                    st.witness_of_state.entry(*f).or_insert_with(|| (full.clone(), ix));
+                }
+            }
             if st.samples.len() < 3 && (st.executions == 1 || st.executions % 9973 == 0) && !was_blocked {
                 st.samples.push(full.clone());
             }
